@@ -759,7 +759,7 @@ def run(ctx):
     import time
     quick = ctx.tier == "quick"
     rng = ctx.rng
-    W = int(os.environ.get("VERIF_TLC_WORKERS") or (4 if quick else 8))
+    W = int(os.environ.get("VERIF_TLC_WORKERS") or (2 if quick else 8))
     nproc = int(os.environ.get("VERIF_REPLAY_PROCS") or (6 if quick else 8))
     ctx.assumptions += [
         "member-name universe of the model: debian-binary, control.tar/data.tar x {none,gz,bz2,xz,lzma}, _gpgorigin, control.tar.zst, data.tar.gz.bak, control.tar.Z; all subsets, all orders up to length %d%s" % (3 if quick else 4, "" if quick else ", up to length 5 over a 9-name sub-universe"),
